@@ -75,7 +75,7 @@ func (s *Sim) RunStep(i int, st Step) (res StepResult, infra error) {
 			res.Mismatches = append(res.Mismatches, Mismatch{"panic", i, "revert", fmt.Sprint(pan)})
 			return res, nil
 		}
-		if st.Post != nil {
+		if st.Post != nil && !st.Post.None {
 			for _, d := range s.Compare(st.Post) {
 				res.Mismatches = append(res.Mismatches, Mismatch{"post", i, "revert", d})
 			}
@@ -132,7 +132,7 @@ func (s *Sim) RunStep(i int, st Step) (res StepResult, infra error) {
 				res.Mismatches = append(res.Mismatches, Mismatch{"panic", i, lastTag, "apply: " + fmt.Sprint(apan)})
 				return res, nil
 			}
-			if st.Post != nil {
+			if st.Post != nil && !st.Post.None {
 				for _, d := range s.Compare(st.Post) {
 					res.Mismatches = append(res.Mismatches, Mismatch{"post", i, lastTag, d})
 				}
